@@ -29,6 +29,8 @@ struct Interpose {
   std::function<void(const std::string& path, const std::string& data)> onWrite;
   // same selection of fds; return an errno (>0) to make the write(2) fail instead of being performed
   std::function<int(const std::string& path, const std::string& data)> onWriteErr;
+  // every directory entry about to be returned by readdir (directory path, entry name)
+  std::function<void(const std::string& dir, const char* name)> onReaddir;
   std::string kmsgPath;
   bool openIsRelative{false}; // set around onOpen: the open in progress names its file relative to a directory fd
   bool clearDType{false}; // readdir reports DT_UNKNOWN (file systems without d_type)
